@@ -720,6 +720,13 @@ def np_squeeze(I, a, k):
     items = Mo.seq_items(I, x) if Mo.is_list(x) else None
     if items is not None and len(items) == 1 and numkind(items[0]) is not None:
         return items[0]
+    if items is not None and all(numkind(v) is not None for v in items):
+        return x                       # 1-d array with other than one entry: unchanged (a view of the same data)
+    if Mo.is_list(x) and x.kind == 'slist':
+        c = I.st.heap[x]
+        if I.st.branch(c['len'] == 1):
+            return SV(z3.Select(c['arr'], 0), c['ek'])
+        return x
     raise Unsupported('squeeze of %r' % (x,))
 
 
